@@ -40,7 +40,7 @@ def _run(pid, prop, tier, seed, coop_cases, free_cases, rule, assumptions):
 
 def run_c12(tier, seed, replay=None):
     return _run("C12", "c12", tier, seed, 1500 if tier == "quick" else 150000, 6000 if tier == "quick" else 600000,
-                "13 scenarios (resolve|then, reject|then, resolve(parent)|then(derived), ...|then(derived).then, inner promise settled by a third thread, reject(parent)|then(derived) with rethrow, two attachers, void promise, and one per continuation specialisation that settles a derived promise: void parent with value-returning continuation, void parent with promise-returning continuation, inner promise already fulfilled, rejection of a void parent, inner promise rejected by a third thread) x seeded schedules of the cooperative scheduler (uniform random walk and PCT with 1-3 change points) switching at the async.h hooks and at modelled lock acquire/release; per-continuation counters and values judged at the end of every schedule; plus free-running rounds under ThreadSanitizer with random spins at the hooks. distinct = distinct (scenario, schedule trace) hashes",
+                "14 scenarios (resolve|then, reject|then, resolve(parent)|then(derived), ...|then(derived).then, inner promise settled by a third thread, reject(parent)|then(derived) with rethrow, two attachers, void promise, and one per continuation specialisation that settles a derived promise: void parent with value-returning continuation, void parent with promise-returning continuation, inner promise already fulfilled, rejection of a void parent, inner promise rejected by a third thread, and a promise with 2 or 4 continuations attached beforehand that gets one more while it is being fulfilled) x seeded schedules of the cooperative scheduler (uniform random walk and PCT with 1-3 change points) switching at the async.h hooks and at modelled lock acquire/release; per-continuation counters and values judged at the end of every schedule; plus free-running rounds under ThreadSanitizer with random spins at the hooks. distinct = distinct (scenario, schedule trace) hashes",
                 ["schedules are sampled, not enumerated; the scheduler only switches at hooks (sequentially consistent interleavings of hooked steps)",
                  "TSan reports without a Pistache frame are not judged"])
 
